@@ -18,6 +18,13 @@
   * `c26_register_gateway(_known)` with `c26_register_client`: after the REGISTER exchange the client
     knows the name under exactly the TopicID that denotes that name in the gateway;
   * `c26_subscribe_client`: the accepted SUBACK installs the handler and the name ↔ ID binding;
+  * the topic tables of the two sides AGREE (`Agree`: every name the client has a TopicID for is what
+    that ID denotes in the gateway): kept by each exchange (`c26_agree_register_new/_known`,
+    `c26_agree_gateway_register`, `c26_agree_suback`), and — `reach_inv`,
+    `c26_partial_publish_after_any_history` — by ANY history of REGISTER / SUBSCRIBE exchanges (the
+    model's handlers are shown to be such steps: `step_handle*`, `step_client_*`) from the initial
+    states; consequence (`c26_agree_publish`, with C01): a Publish on a registered name reaches the
+    broker under exactly the name the application gave;
   * `c26_sleep_from_awake_silent` with `c11_wake`: after PINGRESP the gateway takes the client for
     asleep again, and the client's next Sleep() from `awake` sends nothing — the two sides agree on
     the state without a DISCONNECT;
@@ -30,7 +37,9 @@
   scripts by the system suite; the specification is evaluated on the implementation's results.
 -/
 import Bisquitt.Props.C11
+import Bisquitt.Props.C01
 import Bisquitt.Props.C02
+import Bisquitt.Props.C04
 import Bisquitt.Props.C33
 import Bisquitt.Spec.System
 
@@ -429,3 +438,325 @@ theorem c26_subscribe_client (c : Cl) (t : Tx) (label name : Bytes) (fl : UInt8)
   simp
 
 end Bisquitt.Cl
+
+/-! ## the two topic tables agree -/
+
+namespace Bisquitt.Sys
+open Bisquitt
+
+/-- the two topic tables agree: every name the client has a TopicID for is what that ID denotes
+    in the gateway -/
+def Agree (c : Cl.Cl) (g : Gw.Gw) : Prop :=
+  ∀ name id, c.registered.lookup name = some id → g.registered.lookup id = some name
+
+theorem agree_init (ccfg : Cl.Cfg) (g : Gw.Gw) : Agree ({ cfg := ccfg } : Cl.Cl) g := by
+  intro name id h
+  simp at h
+
+/-- the client learns a binding the gateway already has -/
+theorem agree_client_learns (c : Cl.Cl) (g : Gw.Gw) (name : Bytes) (id : UInt16) (h : Agree c g)
+    (hg : g.registered.lookup id = some name) :
+    Agree ({ c with registered := (name, id) :: c.registered } : Cl.Cl) g := by
+  intro n i hl
+  simp only [List.lookup_cons] at hl
+  by_cases hn : n == name
+  · simp only [hn, Option.some.injEq] at hl
+    subst hl
+    rw [eq_of_beq hn]; exact hg
+  · simp only [hn] at hl
+    exact h n i hl
+
+/-- the gateway binds a TopicID the client does not know yet -/
+theorem agree_gateway_stores (c : Cl.Cl) (g : Gw.Gw) (name : Bytes) (id : UInt16) (h : Agree c g)
+    (hf : ∀ n, c.registered.lookup n ≠ some id) : Agree c (g.storeRegistered id name) := by
+  intro n i hl
+  unfold Gw.Gw.storeRegistered
+  simp only [List.lookup_cons]
+  by_cases hi : i == id
+  · rw [eq_of_beq hi] at hl
+    exact absurd hl (hf n)
+  · simp only [hi]
+    exact h n i hl
+
+/-- only the tables matter -/
+theorem agree_congr {c c' : Cl.Cl} {g g' : Gw.Gw} (h : Agree c g) (hc : c'.registered = c.registered)
+    (hg : g'.registered = g.registered) : Agree c' g' := by
+  intro n i hl
+  rw [hc] at hl
+  rw [hg]
+  exact h n i hl
+
+/-- **C26 (publish on a registered name).** When the tables agree, the client publishes a registered
+    name under a TopicID which the gateway resolves to that very name: the broker gets the PUBLISH
+    under the name the application gave. -/
+theorem c26_agree_publish (c : Cl.Cl) (g : Gw.Gw) (call : String) (name payload : Bytes) (id mid : UInt16) (q : UInt8) (r dup : Bool)
+    (h : Agree c g) (hl : c.registered.lookup name = some id) (hs : isShortTopic name = false)
+    (hne : name ≠ []) (hw : Gw.Gw.hasWildcard name = false) :
+    c.apiPublish call name q r payload = c.apiPublishRaw call Gen.TIT_REGISTERED id q r payload ∧
+    (g.handleClientPublish dup q r Gen.TIT_REGISTERED id mid payload).outs =
+      (g.now, Gw.Out.mq (.publish dup (if q = 3 then 0 else q) r (if (if q = 3 then 0 else q) = 0 then 0 else mid) name payload))
+        :: g.outs := by
+  refine ⟨?_, ?_⟩
+  · unfold Cl.Cl.apiPublish
+    simp [hs, hl]
+  · apply Gw.c01_forward g dup q r Gen.TIT_REGISTERED id mid payload name _ hne hw
+    unfold Gw.Gw.resolveTopic
+    simp [h name id hl]
+
+
+/-! ### the exchanges keep the tables in agreement -/
+
+theorem newTopicId_registered (g : Gw.Gw) : g.newTopicId.2.registered = g.registered := by
+  unfold Gw.Gw.newTopicId
+  split
+  · rfl
+  · simp only
+    split
+    · rfl
+    · split <;> rfl
+
+theorem snSend_registered (g : Gw.Gw) (p : Pkt) (tx : Option Nat) : (g.snSend p tx).registered = g.registered := by
+  unfold Gw.Gw.snSend; split <;> rfl
+
+theorem findRegisteredId_sound (g : Gw.Gw) (name : Bytes) (id : UInt16) (h : g.findRegisteredId name = some id) :
+    g.registered.lookup id = some name := by
+  have := (List.mem_filter.mp (Gw.mem_of_head_some (by simpa [Gw.Gw.findRegisteredId, Gw.Gw.registeredIds] using h))).2
+  simpa using this
+
+theorem sendOrFail_registered (c : Cl.Cl) (p : Pkt) : (c.sendOrFail p).registered = c.registered := by
+  unfold Cl.Cl.sendOrFail Cl.Cl.send
+  by_cases hc : c.connClosed = true
+  · simp only [hc, if_true, Bool.false_eq_true, if_false]
+    unfold Cl.Cl.rxFail Cl.Cl.cancelGroup
+    split <;> rfl
+  · simp only [hc]
+    rfl
+
+/-- **C26 (REGISTER of a new name).** The exchange REGISTER → REGACK keeps the tables in agreement. -/
+theorem c26_agree_register_new (c : Cl.Cl) (g g' : Gw.Gw) (t : Cl.Tx) (id mid : UInt16) (name : Bytes)
+    (h : Agree c g) (hw : Gw.Gw.hasWildcard name = false) (hn : g.findRegisteredId name = none)
+    (ha : g.newTopicId = (some id, g')) (hf : ∀ n, c.registered.lookup n ≠ some id)
+    (hl : c.lookupById mid = some t) (hk : t.kind = .register name) :
+    Agree (c.handlePacket (.regack id mid Gen.RC_ACCEPTED)) (g.handleRegister mid name) := by
+  rw [(Cl.c26_register_client c t id mid name hl hk).1, (Gw.c26_register_gateway g g' mid id name hw hn ha).1]
+  have hg' : g'.registered = g.registered := by
+    have := newTopicId_registered g
+    rw [ha] at this
+    exact this
+  have A1 : Agree c g' := agree_congr h rfl hg'
+  have A2 := agree_gateway_stores c g' name id A1 hf
+  have A3 := agree_client_learns c (g'.storeRegistered id name) name id A2 (by simp [Gw.Gw.storeRegistered])
+  exact agree_congr A3 (Cl.finishTx_tables _ _ _).1 (snSend_registered _ _ _)
+
+/-- **C26 (REGISTER of a name the gateway knows).** Same for the ID the name has already. -/
+theorem c26_agree_register_known (c : Cl.Cl) (g : Gw.Gw) (t : Cl.Tx) (id mid : UInt16) (name : Bytes)
+    (h : Agree c g) (hw : Gw.Gw.hasWildcard name = false) (hn : g.findRegisteredId name = some id)
+    (hl : c.lookupById mid = some t) (hk : t.kind = .register name) :
+    Agree (c.handlePacket (.regack id mid Gen.RC_ACCEPTED)) (g.handleRegister mid name) := by
+  rw [(Cl.c26_register_client c t id mid name hl hk).1, Gw.c26_register_gateway_known g mid id name hw hn]
+  have A := agree_client_learns c g name id h (findRegisteredId_sound g name id hn)
+  exact agree_congr A (Cl.finishTx_tables _ _ _).1 (snSend_registered _ _ _)
+
+/-- **C26 (the gateway registers a name for a broker message).** After the client has accepted the
+    REGISTER and the gateway has got the REGACK, the tables agree again. -/
+theorem c26_agree_gateway_register (c : Cl.Cl) (g : Gw.Gw) (t : Gw.Tx) (q : UInt8) (id m mid : UInt16) (name : Bytes) (pub : Pkt)
+    (h : Agree c g) (hn : c.registered.lookup name = none) (hf : ∀ n, c.registered.lookup n ≠ some id) :
+    Agree (c.handlePacket (.register id mid name))
+      (g.bpRegack t q .awaitingRegack (.sn (.register id m name)) (some pub) Gen.RC_ACCEPTED) := by
+  rw [Cl.c26_client_register_new c id mid name hn, Gw.c02_after_regack]
+  have A2 := agree_gateway_stores c g name id h hf
+  have A3 := agree_client_learns c (g.storeRegistered id name) name id A2 (by simp [Gw.Gw.storeRegistered])
+  refine agree_congr A3 (sendOrFail_registered _ _) ?_
+  exact congrArg Gw.TopicView.registered (Gw.proceedSN_topicView _ _ _ _)
+
+/-- **C26 (SUBSCRIBE to a plain name).** The client learning the TopicID of the SUBACK keeps the
+    agreement, when that ID denotes the name in the gateway (which registered it when it got the
+    SUBSCRIBE: `c26_subscribe_keeps_id`, or a fresh one). -/
+theorem c26_agree_suback (c : Cl.Cl) (g : Gw.Gw) (t : Cl.Tx) (label name : Bytes) (fl : UInt8) (tid mid stid : UInt16) (d : Bool) (q : UInt8)
+    (h : Agree c g) (hg : g.registered.lookup tid = some name)
+    (hl : c.lookupById mid = some t) (hk : t.kind = .subscribe label)
+    (hd : t.data = some (.subscribe d q Gen.TIT_STRING mid stid name)) (hz : tid ≠ 0) :
+    Agree (c.handlePacket (.suback fl tid mid Gen.RC_ACCEPTED)) g := by
+  have A := agree_client_learns c g name tid h hg
+  refine agree_congr A ?_ rfl
+  unfold Cl.Cl.handlePacket
+  simp only [hl, hk, hd]
+  simp only [ne_eq, not_true_eq_false, if_false, if_true, hz, not_false_eq_true]
+  rw [(Cl.finishTx_tables _ _ _).1]
+
+
+/-! ### all histories of REGISTER / SUBSCRIBE exchanges: the tables stay in agreement -/
+
+/-- the invariant carried through a history of exchanges -/
+structure Inv (c : Cl.Cl) (g : Gw.Gw) : Prop where
+  agree : Agree c g
+  /-- every TopicID the client knows lies behind the gateway's allocation position -/
+  cbelow : ∀ n i, c.registered.lookup n = some i → i.toNat < g.idseq.next.toNat
+  gbelow : ∀ i n, g.registered.lookup i = some n → i.toNat < g.idseq.next.toNat
+  seqok : Gw.SeqOk g.idseq
+  /-- the sequence has not wrapped, or nothing is handed out any more -/
+  live : g.idseq.overflow = false
+
+/-- what a step does to the two tables and the allocator -/
+inductive Step : Cl.Cl × Gw.Gw → Cl.Cl × Gw.Gw → Prop
+  /-- the gateway allocates a fresh TopicID and binds it (REGISTER or SUBSCRIBE of a new plain name) -/
+  | gwAlloc (c : Cl.Cl) (g g1 g' : Gw.Gw) (id : UInt16) (name : Bytes) :
+      g.newTopicId = (some id, g1) → g1.idseq.overflow = false →
+      g'.registered = (id, name) :: g1.registered → g'.idseq = g1.idseq → Step (c, g) (c, g')
+  /-- the client learns from a REGACK / SUBACK a binding the gateway has -/
+  | clLearn (c c' : Cl.Cl) (g : Gw.Gw) (id : UInt16) (name : Bytes) :
+      g.registered.lookup id = some name → c'.registered = (name, id) :: c.registered → Step (c, g) (c', g)
+  /-- anything that leaves the tables and the allocator alone -/
+  | frame (c c' : Cl.Cl) (g g' : Gw.Gw) :
+      c'.registered = c.registered → g'.registered = g.registered → g'.idseq = g.idseq → Step (c, g) (c', g')
+
+theorem step_inv {c c' : Cl.Cl} {g g' : Gw.Gw} (h : Inv c g) (st : Step (c, g) (c', g')) : Inv c' g' := by
+  cases st with
+  | gwAlloc _ _ g1 _ id name ha hov hr hs =>
+    have inc := Gw.c04_increasing g g1 id ha h.seqok
+    have hreg : g1.registered = g.registered := by
+      have := newTopicId_registered g; rw [ha] at this; exact this
+    have hlt : id.toNat < g1.idseq.next.toNat := inc.2.2.2.2.2.2 hov
+    have hfresh : ∀ n, c.registered.lookup n ≠ some id := by
+      intro n hn
+      have := h.cbelow n id hn
+      omega
+    refine ⟨?_, ?_, ?_, ?_, ?_⟩
+    · intro n i hl
+      rw [hr, hreg]
+      simp only [List.lookup_cons]
+      by_cases hi : i == id
+      · rw [eq_of_beq hi] at hl; exact absurd hl (hfresh n)
+      · simp only [hi]; exact h.agree n i hl
+    · intro n i hl
+      rw [hs]
+      have := h.cbelow n i hl
+      omega
+    · intro i n hl
+      rw [hs]
+      rw [hr, hreg] at hl
+      simp only [List.lookup_cons] at hl
+      by_cases hi : i == id
+      · rw [eq_of_beq hi]; exact hlt
+      · simp only [hi] at hl
+        have := h.gbelow i n hl
+        omega
+    · rw [hs]; exact inc.2.2.2.1
+    · rw [hs]; exact hov
+  | clLearn _ _ _ id name hg hr =>
+    refine ⟨?_, ?_, h.gbelow, h.seqok, h.live⟩
+    · exact agree_congr (agree_client_learns c g name id h.agree hg) hr rfl
+    · intro n i hl
+      rw [hr] at hl
+      simp only [List.lookup_cons] at hl
+      by_cases hn : n == name
+      · simp only [hn, Option.some.injEq] at hl
+        subst hl
+        exact h.gbelow _ _ hg
+      · simp only [hn] at hl
+        exact h.cbelow n i hl
+  | frame _ _ _ _ hc hg hs =>
+    refine ⟨agree_congr h.agree hc hg, ?_, ?_, ?_, ?_⟩
+    · intro n i hl; rw [hc] at hl; rw [hs]; exact h.cbelow n i hl
+    · intro i n hl; rw [hg] at hl; rw [hs]; exact h.gbelow i n hl
+    · rw [hs]; exact h.seqok
+    · rw [hs]; exact h.live
+
+/-- histories from a given start -/
+inductive Reach (s : Cl.Cl × Gw.Gw) : Cl.Cl × Gw.Gw → Prop
+  | refl : Reach s s
+  | step {t u : Cl.Cl × Gw.Gw} : Reach s t → Step t u → Reach s u
+
+theorem reach_inv {s t : Cl.Cl × Gw.Gw} (r : Reach s t) (h : Inv s.1 s.2) : Inv t.1 t.2 := by
+  induction r with
+  | refl => exact h
+  | step _ st ih => exact step_inv (c := _) (g := _) ih st
+
+theorem inv_init (ccfg : Cl.Cfg) (gcfg : Gw.Cfg) (mn mx : UInt16) (hm : mn.toNat ≤ mx.toNat) :
+    Inv ({ cfg := ccfg } : Cl.Cl) (Gw.Gw.init gcfg mn mx) := by
+  refine ⟨agree_init _ _, ?_, ?_, Gw.seqOk_new mn mx hm, rfl⟩
+  · intro n i hl; simp at hl
+  · intro i n hl; simp [Gw.Gw.init] at hl
+
+/-- **C26 (partial: histories of REGISTER / SUBSCRIBE exchanges and of steps that leave the tables
+    alone; the gateway's own registrations for broker messages are covered exchange by exchange,
+    `c26_agree_gateway_register`).** After ANY such history from the initial states, a Publish on a
+    name the client has a TopicID for reaches the broker under exactly that name. -/
+theorem c26_partial_publish_after_any_history (ccfg : Cl.Cfg) (gcfg : Gw.Cfg) (c : Cl.Cl) (g : Gw.Gw)
+    (r : Reach (({ cfg := ccfg } : Cl.Cl), Gw.Gw.init gcfg Gen.MinTopicAlias Gen.MaxTopicAlias) (c, g))
+    (call : String) (name payload : Bytes) (id mid : UInt16) (q : UInt8) (rt dup : Bool)
+    (hl : c.registered.lookup name = some id) (hs : isShortTopic name = false) (hne : name ≠ [])
+    (hw : Gw.Gw.hasWildcard name = false) :
+    c.apiPublish call name q rt payload = c.apiPublishRaw call Gen.TIT_REGISTERED id q rt payload ∧
+    (g.handleClientPublish dup q rt Gen.TIT_REGISTERED id mid payload).outs =
+      (g.now, Gw.Out.mq (.publish dup (if q = 3 then 0 else q) rt (if (if q = 3 then 0 else q) = 0 then 0 else mid) name payload))
+        :: g.outs :=
+  c26_agree_publish c g call name payload id mid q rt dup
+    (reach_inv r (inv_init ccfg gcfg _ _ (by decide))).agree hl hs hne hw
+
+
+/-! ### the handlers of the two models are such steps -/
+
+theorem forwardSubscribe_topicView (g : Gw.Gw) (dup : Bool) (q : UInt8) (mid : UInt16) (tp : Bytes) (tid : UInt16) :
+    (g.forwardSubscribe dup q mid tp tid).topicView = g.topicView := by
+  unfold Gw.Gw.forwardSubscribe
+  split
+  · unfold Gw.Gw.fail; split <;> rfl
+  · rfl
+
+/-- REGISTER of a new plain name at the gateway -/
+theorem step_handleRegister_new (c : Cl.Cl) (g g1 : Gw.Gw) (mid id : UInt16) (name : Bytes)
+    (hw : Gw.Gw.hasWildcard name = false) (hn : g.findRegisteredId name = none) (ha : g.newTopicId = (some id, g1))
+    (hov : g1.idseq.overflow = false) : Step (c, g) (c, g.handleRegister mid name) := by
+  refine Step.gwAlloc c g g1 _ id name ha hov ?_ ?_
+  · rw [(Gw.c26_register_gateway g g1 mid id name hw hn ha).1, snSend_registered]; rfl
+  · rw [(Gw.c26_register_gateway g g1 mid id name hw hn ha).1]
+    exact congrArg Gw.TopicView.idseq (Gw.snSend_topicView _ _ _)
+
+/-- REGISTER of a name the gateway knows: the tables stay -/
+theorem step_handleRegister_known (c : Cl.Cl) (g : Gw.Gw) (mid id : UInt16) (name : Bytes)
+    (hw : Gw.Gw.hasWildcard name = false) (hn : g.findRegisteredId name = some id) :
+    Step (c, g) (c, g.handleRegister mid name) := by
+  rw [Gw.c26_register_gateway_known g mid id name hw hn]
+  exact Step.frame c c g _ rfl (snSend_registered _ _ _) (congrArg Gw.TopicView.idseq (Gw.snSend_topicView _ _ _))
+
+/-- SUBSCRIBE to a new plain name at the gateway -/
+theorem step_handleSubscribe_new (c : Cl.Cl) (g g1 : Gw.Gw) (dup : Bool) (qos : UInt8) (mid tid id : UInt16) (name : Bytes)
+    (hq : ¬ qos > 2) (hw : Gw.Gw.hasWildcard name = false) (hn : g.findRegisteredId name = none)
+    (ha : g.newTopicId = (some id, g1)) (hov : g1.idseq.overflow = false) :
+    Step (c, g) (c, g.handleSubscribe dup qos Gen.TIT_STRING mid tid name) := by
+  have he : g.handleSubscribe dup qos Gen.TIT_STRING mid tid name =
+      (g1.storeRegistered id name).forwardSubscribe dup qos mid name id := by
+    unfold Gw.Gw.handleSubscribe
+    simp [hq, hw, hn, ha]
+  refine Step.gwAlloc c g g1 _ id name ha hov ?_ ?_
+  · rw [he]; exact congrArg Gw.TopicView.registered (forwardSubscribe_topicView _ _ _ _ _ _)
+  · rw [he]; exact congrArg Gw.TopicView.idseq (forwardSubscribe_topicView _ _ _ _ _ _)
+
+/-- SUBSCRIBE to a registered plain name: the tables stay -/
+theorem step_handleSubscribe_known (c : Cl.Cl) (g : Gw.Gw) (dup : Bool) (qos : UInt8) (mid tid id : UInt16) (name : Bytes)
+    (hq : ¬ qos > 2) (hw : Gw.Gw.hasWildcard name = false) (hr : g.findRegisteredId name = some id) :
+    Step (c, g) (c, g.handleSubscribe dup qos Gen.TIT_STRING mid tid name) := by
+  rw [Gw.c26_subscribe_keeps_id g dup qos mid tid id name hq hw hr]
+  exact Step.frame c c g _ rfl (congrArg Gw.TopicView.registered (forwardSubscribe_topicView _ _ _ _ _ _))
+    (congrArg Gw.TopicView.idseq (forwardSubscribe_topicView _ _ _ _ _ _))
+
+/-- the client gets the REGACK of its REGISTER -/
+theorem step_client_regack (c : Cl.Cl) (g : Gw.Gw) (t : Cl.Tx) (id mid : UInt16) (name : Bytes)
+    (hg : g.registered.lookup id = some name) (hl : c.lookupById mid = some t) (hk : t.kind = .register name) :
+    Step (c, g) (c.handlePacket (.regack id mid Gen.RC_ACCEPTED), g) := by
+  refine Step.clLearn c _ g id name hg ?_
+  rw [(Cl.c26_register_client c t id mid name hl hk).1, (Cl.finishTx_tables _ _ _).1]
+
+/-- the client gets the SUBACK of its subscription to a plain name -/
+theorem step_client_suback (c : Cl.Cl) (g : Gw.Gw) (t : Cl.Tx) (label name : Bytes) (fl : UInt8) (tid mid stid : UInt16) (d : Bool) (q : UInt8)
+    (hg : g.registered.lookup tid = some name) (hl : c.lookupById mid = some t) (hk : t.kind = .subscribe label)
+    (hd : t.data = some (.subscribe d q Gen.TIT_STRING mid stid name)) (hz : tid ≠ 0) :
+    Step (c, g) (c.handlePacket (.suback fl tid mid Gen.RC_ACCEPTED), g) := by
+  refine Step.clLearn c _ g tid name hg ?_
+  unfold Cl.Cl.handlePacket
+  simp only [hl, hk, hd]
+  simp only [ne_eq, not_true_eq_false, if_false, if_true, hz, not_false_eq_true]
+  rw [(Cl.finishTx_tables _ _ _).1]
+
+end Bisquitt.Sys
